@@ -27,6 +27,8 @@ mod spline;
 mod mesh;
 mod proj;
 mod vary;
+mod rect;
+mod stats;
 
 use std::io::{BufRead, BufWriter, Write};
 
@@ -61,6 +63,9 @@ fn parse_args(a: &[String]) -> Args {
     r
 }
 
+static PROGRESS: std::sync::atomic::AtomicU64 = std::sync::atomic::AtomicU64::new(0);
+static CURRENT: std::sync::Mutex<String> = std::sync::Mutex::new(String::new());
+
 type GenFn = fn(&Args, &mut dyn Write);
 type ExecFn = fn(&serde_json::Value) -> serde_json::Value;
 
@@ -82,6 +87,8 @@ fn subsystem(name: &str) -> Option<(GenFn, ExecFn)> {
         "mesh" => (mesh::gen, mesh::exec),
         "proj" => (proj::gen, proj::exec),
         "vary" => (vary::gen, vary::exec),
+        "rect" => (rect::gen, rect::exec),
+        "stats" => (stats::gen, stats::exec),
         _ => return None,
     })
 }
@@ -106,6 +113,22 @@ fn main() {
         "exec" => {
             let path = args.rest.first().expect("cases file");
             let f = std::fs::File::open(path).expect("open cases");
+            // Non-termination of the code under test is data too: a watchdog reports the
+            // case that has been running for RFVERIF_HANG_SECS (default 300) and exits 3.
+            let hang_secs: u64 = std::env::var("RFVERIF_HANG_SECS").ok().and_then(|s| s.parse().ok()).unwrap_or(300);
+            std::thread::spawn(move || {
+                let (mut seen, mut since) = (u64::MAX, std::time::Instant::now());
+                loop {
+                    std::thread::sleep(std::time::Duration::from_millis(500));
+                    let now = PROGRESS.load(std::sync::atomic::Ordering::SeqCst);
+                    if now != seen {
+                        (seen, since) = (now, std::time::Instant::now());
+                    } else if since.elapsed().as_secs() >= hang_secs {
+                        eprintln!("HANG key={}", CURRENT.lock().map(|k| k.clone()).unwrap_or_default());
+                        std::process::exit(3);
+                    }
+                }
+            });
             for line in std::io::BufReader::new(f).lines() {
                 let line = line.expect("read");
                 if line.trim().is_empty() {
@@ -113,6 +136,10 @@ fn main() {
                 }
                 let case: serde_json::Value =
                     serde_json::from_str(&line).expect("case json");
+                if let Ok(mut k) = CURRENT.lock() {
+                    *k = case.get("k").map(|v| v.as_str().map(|s| s.to_string()).unwrap_or(v.to_string())).unwrap_or_default();
+                }
+                PROGRESS.fetch_add(1, std::sync::atomic::Ordering::SeqCst);
                 // a case yields one record, or an array of records
                 match exec(&case) {
                     serde_json::Value::Array(recs) => {
